@@ -1,0 +1,19 @@
+//go:build verif
+
+package config
+
+// Contracts for the deductive verifier in /verif (govc).  This file contains comments only;
+// it is compiled only with -tags verif and declares nothing.
+
+//@ spec stem(p string) string = p[0 : len(p)-len(pathExt(p))]
+//@ spec inputOf() string = cond(flagArg(0) != "", flagArg(0), getenv("GOFILE"))
+//@ spec outputOf(in string) string = cond(flagStr("out") != "", flagStr("out"), stem(in) + ".gen" + pathExt(in))
+//@
+//@ func (*Config).ParseArgs(c) (err)
+//@   effects env-read, stderr, exit
+//@   assigns *c, boxes(string), boxes(bool), flag.Usage
+//@   ensures {C18} err == nil
+//@   ensures {C18} c.Input == inputOf() && c.Input != ""
+//@   ensures {C18,C15} c.Output == outputOf(c.Input)
+//@   ensures {C18,C15} c.Log == cond(flagBool("log"), stem(c.Output) + ".log", old(c.Log))
+//@   ensures {C18} c.DryRun == flagBool("dry") && c.Prints == flagBool("print")
